@@ -38,7 +38,7 @@ ASSUMPTIONS = [
 REAL_VS_STUB = {"real": ["molli.chem.ensemble.ConformerEnsemble / Conformer", "_serialize_ens_v2/_deserialize_ens_v2 + msgpack", "dumps_mol2/dumps_xyz"],
                 "stub": ["caller tasks (generators stepped by the seeded scheduler)"]}
 PROBES = ["iter_plain", "iter_nested", "iter_zip", "iter_restart", "two_or_more_tasks_interleaved", "mutator_between_nexts", "append", "extend_list",
-          "extend_ens", "copy_construct", "rebuild_from_conformers", "slice", "write_through_conformer", "serialise_roundtrip", "conformer_dump",
+          "extend_ens", "extend_oneshot_iterable", "held_view_checked_after_mutation", "copy_construct", "rebuild_from_conformers", "slice", "write_through_conformer", "serialise_roundtrip", "conformer_dump",
           "empty_ensemble_iterated"]
 
 TEMPLATES = {
@@ -65,7 +65,7 @@ def gen_plan(r, tier, index):
     phases = []
     for _ in range(r.choice([2, 3, 3, 4, 5, 7])):
         if r.random() < 0.45:
-            phases.append({"type": "op", "op": r.choice(["append", "append", "extend_list", "extend_ens", "copy", "rebuild", "slice"]),
+            phases.append({"type": "op", "op": r.choice(["append", "append", "extend_list", "extend_ens", "extend_gen", "extend_iter", "extend_tuple", "copy", "rebuild", "slice"]),
                            "n": r.choice([1, 1, 2, 3]), "cseed": r.randrange(1 << 30)})
         else:
             nt = r.choice([1, 1, 2, 2, 3])
@@ -215,6 +215,19 @@ def run_plan(plan, trace=False):
                     res.stats["probe:extend_list"] += 1
                     ens.extend([_mk_mol(base["tmpl"], newc[k], "ext") for k in range(ph["n"])])
                     mc = np.concatenate([mc, newc], axis=0)
+                elif op in ("extend_gen", "extend_iter", "extend_tuple"):
+                    # any iterable of geometries is accepted by the signature: a generator, an iterator over another
+                    # ensemble, a tuple
+                    res.stats["probe:extend_oneshot_iterable"] += 1
+                    if op == "extend_gen":
+                        ens.extend(_mk_mol(base["tmpl"], newc[k], "ext") for k in range(ph["n"]))
+                    elif op == "extend_tuple":
+                        ens.extend(tuple(_mk_mol(base["tmpl"], newc[k], "ext") for k in range(ph["n"])))
+                    else:
+                        e2 = ml.ConformerEnsemble(_mk_mol(base["tmpl"], newc[0], "ext"), n_conformers=ph["n"])
+                        e2.coords = newc
+                        ens.extend(iter(e2))
+                    mc = np.concatenate([mc, newc], axis=0)
                 elif op == "extend_ens":
                     res.stats["probe:extend_ens"] += 1
                     e2 = ml.ConformerEnsemble(_mk_mol(base["tmpl"], newc[0], "ext"), n_conformers=ph["n"])
@@ -340,7 +353,13 @@ def _iter_phase(ph, st, res, viol, check_inv, ctx, na, log, ser, deser, msgpack)
             yield "mut"
             _mutate(mo, st, res, viol, na, ser, deser, msgpack)
             check_inv(f"after mutator op {mo['op']} during iteration")
+            for v_ in held:
+                res.stats["probe:held_view_checked_after_mutation"] += 1
+                if not np.allclose(v_.coords, st["mc"][v_._conf_id], rtol=1e-9, atol=1e-9, equal_nan=True):
+                    viol("held-view-is-stale", f"a conformer view of row {v_._conf_id} taken before {mo['op']} no longer shows the ensemble's row")
 
+    held = [ens[i] for i in range(nc)]      # long-lived views: they must stay live whatever happens to the ensemble
+    st["held"] = held
     makers = {"plain": plain, "nested": nested, "zip": zipped, "restart": restart}
     tasks = []
     for tid, t in enumerate(ph["tasks"]):
@@ -427,6 +446,8 @@ def _mutate(mo, st, res, viol, na, ser, deser, msgpack):
         res.stats["probe:write_through_conformer"] += 1
         before = np.array(ens.coords, copy=True)
         c1, c2 = ens[i], ens[i]
+        if (a >> 8) % 2 and st.get("held"):
+            c1 = st["held"][i]     # write through a view that has been around since before earlier transformations
         if op == "write":
             new = np.round(np.linspace(-1, 1, na * 3).reshape(na, 3) + (a % 11), 3)
             c1.coords = new
@@ -435,8 +456,8 @@ def _mutate(mo, st, res, viol, na, ser, deser, msgpack):
             j = (a >> 4) % na
             c1.coords[j] = [1.0 + a % 5, -2.0, 3.5]
             mc[i, j] = [1.0 + a % 5, -2.0, 3.5]
-        if not np.allclose(c2.coords, mc[i], equal_nan=True):
-            viol("write-not-visible-through-second-view", f"write through ens[{i}] is not seen by a second ens[{i}] view")
+        if not np.allclose(c2.coords, mc[i], equal_nan=True) or not np.allclose(ens.coords[i], mc[i], equal_nan=True):
+            viol("write-not-visible-through-second-view", f"write through a view of row {i} is not seen by the ensemble / a second ens[{i}] view")
         for k in range(nc):
             if k != i and not np.allclose(ens.coords[k], before[k], equal_nan=True):
                 viol("write-through-conformer-changed-another-row", f"write through ens[{i}] changed row {k}")
